@@ -651,13 +651,13 @@ def fs_random_history(rng, n):
 
 FS_FIXTURE = [f"fscreate {hx('a/b')}", f"fsmkfile {hx('a/f')} {hx('hello')}", f"fsmkfile {hx('a/b/g')} {hx('xy')}",
               f"fssymlink {hx('/o/od')} {hx('a/l')}", f"fssymlink {hx('/o/of')} {hx('a/b/m')}", f"fssymlink {hx('/o/none')} {hx('n')}",
-              f"fssymlink {hx('a')} {hx('i')}"]
+              f"fssymlink {hx('a')} {hx('i')}", f"fssymlink {hx('nowhere')} {hx('j')}"]
 FS_SMALL = [f"fscreate {hx(p)}" for p in ["a", "a/f", "a/f/x", "c/b/a", "a/l", "n", "a/c/", "a/./c", "a/b/../c", "", "/s/c/c", "i/c"]] + \
            [f"fscreatef {hx('c/b')} {k}" for k in (0, 1)] + \
            [f"fsrmdir {hx(p)} {r}" for p in ["a", "a/b", "a/l", "a/f", "c", "i"] for r in "01"] + \
            [f"fsunlink {hx(p)}" for p in ["a/f", "a/l", "a", "a/b/m", "n", "zz"]] + \
            [f"fsrename {hx(a)} {hx(b)} {f}" for a, b in [("a/f", "a/h"), ("zz", "a/h"), ("a/f", "a/b/g"), ("a", "c"), ("a/l", "a/m"), ("a/f", "a/f")] for f in "01"] + \
-           [f"fscopy {hx(a)} {hx(b)} {f}" for a, b in [("a/f", "a/h"), ("a", "a/h"), ("a/f", "a/b/g"), ("zz", "a/h"), ("a/b/m", "h"), ("a/l", "h"), ("a/f", "a/b")] for f in "01"] + \
+           [f"fscopy {hx(a)} {hx(b)} {f}" for a, b in [("a/f", "a/h"), ("a", "a/h"), ("a/f", "a/b/g"), ("zz", "a/h"), ("a/b/m", "h"), ("a/l", "h"), ("a/f", "a/b"), ("a", "j"), ("a/f", "j")] for f in "01"] + \
            [f"fscopyf {hx('a/f')} {hx(b)} {f} {m}" for b in ["a/h", "a/b/g"] for f in "01" for m in "01"] + \
            [f"fsfile {hx('a/f')} {fl} {sc}" for fl in (1, 2, 3, 6, 7, 10) for sc in ("w5859,r", "s2:-2,w41,s0:0,r", "s0:8,w42,z")] + \
            [f"fsfile {hx('a/h')} {fl} w4142,s0:0,r" for fl in (1, 2, 3, 6, 10, 11)] + \
